@@ -243,6 +243,9 @@ def handleFx (fx : Fx) (items : List Sexp) : String :=
   | [.atom "withbounds", dl, ss, bs, be, ok] => match dl.int?, ss.int?, bs.int?, be.int?, ok.int? with
     | some dl, some ss, some bs, some be, some ok => resStr optPairStr (withBounds dl ss bs be (ok == 1))
     | _, _, _, _, _ => bad
+  | [.atom "tupwithbounds", dl, ss, se, bs, be] => match dl.int?, ss.int?, se.int?, bs.int?, be.int? with
+    | some dl, some ss, some se, some bs, some be => resStr optPairStr (tupleWithBounds dl ss se bs be)
+    | _, _, _, _, _ => bad
   | [.atom "strwithbounds", dl, ss, se, bs, be, ok] => match dl.int?, ss.int?, se.int?, bs.int?, be.int?, ok.int? with
     | some dl, some ss, some se, some bs, some be, some ok => resStr optPairStr (stringWithBounds dl ss se bs be (ok == 1))
     | _, _, _, _, _, _ => bad
